@@ -525,10 +525,15 @@ class Recorder:
             # a re-send racing a release: a decref for this object is queued, or its answer is outstanding
             if W.H.waitingForAnswers and not a[2]:
                 self.flags.add("resend-races-release")
+        held_before = set(W.held)
         ops, ob = W.act(a)
         W.audit()
         if a[0] == "oh" and ob:
             self.flags.add("delivery")
+            if set(ob) & held_before:
+                self.flags.add("redelivery-while-held")
+            if set(ob) - held_before:
+                self.flags.add("new-proxy")
             if len(set(ob)) < len(ob):
                 self.flags.add("repeated-in-one-call")
         if a[0] == "drop" and not a[2]:
@@ -645,3 +650,140 @@ def compare(r, mv):
         if a[0] == "ho" and ob is not None and mhome != [ob]:
             return (i, "action %d %r: model resolves to object %r, implementation to %r" % (i, a, mhome, ob))
     return None
+
+
+# =====================================================================================================
+# shared body of harness/c08.py and harness/c09.py
+def d15_witness():
+    """D15 (fixed in /repo): a bound method is sent, its proxy collected, and the same bound method sent again before
+    the release was processed; also: sent twice while held -> the same proxy.  -> list of (sig, text)"""
+    from foolscap.referenceable import RemoteMethodReference
+    problems = []
+    E.reset_clock()
+    tb, cb = E.broker_pair()
+
+    class T(Referenceable):
+        def __init__(self):
+            self.got = []
+
+        def remote_m(self, x):
+            self.got.append(x)
+
+    class Holder:
+        def meth(self):
+            return 7
+    t = T()
+    tr = tb.getTrackerForMyReference(t.processUniqueID(), t); tr.send()
+    rr = cb.getTrackerForYourReference(tr.clid, None).getRef()
+    hd = Holder()
+    bm = hd.meth
+    rr.callRemote("m", bm); E.turn()
+    rr.callRemote("m", bm); E.turn()
+    if len(t.got) != 2 or not isinstance(t.got[0], RemoteMethodReference) or t.got[0] is not t.got[1]:
+        problems.append(("oracle/identity-lost", "a bound method sent twice while held arrived as %r" % (t.got,)))
+    del t.got[:]
+    gc.collect()                    # proxy dies; _handleRefLost is queued but has not run
+    rr.callRemote("m", bm)
+    E.turn()
+    if len(t.got) != 1 or not isinstance(t.got[0], RemoteMethodReference):
+        problems.append(("oracle/identity-lost", "a bound method sent again after its proxy was collected arrived as %r" % (t.got,)))
+    else:
+        res = []
+        t.got[0].callRemote().addBoth(res.append); E.turn()
+        if res != [7]:
+            problems.append(("oracle/call-misrouted", "calling the re-created method reference returned %r" % (res,)))
+    return problems
+
+
+def shrink_actions(actions, sig):
+    from harness import common
+
+    def still(cand):
+        try:
+            r = run_actions(cand)
+        except Exception:
+            return False
+        return any(p[0] == sig for p in r["problems"])
+    try:
+        return common.shrink_list(actions, still, max_rounds=60)
+    except Exception:
+        return actions
+
+
+def check_refs(ctx, pid, nontrivial_flag):
+    """corpus + generated histories on the real Brokers (direct oracle), then the same histories on the model
+    (correspondence).  Reports only the oracle signatures that belong to property `pid`."""
+    import glob, json, os, time
+    from harness import common
+    results = []
+    t0 = time.time()
+    # 1. corpus
+    for f in sorted(glob.glob(os.path.join(common.VERIF, "corpus", pid, "*.json"))):
+        w = json.load(open(f))
+        r = run_actions(w["actions"])
+        r["origin"] = os.path.basename(f)
+        results.append(r)
+        sigs = set(p[0] for p in r["problems"])
+        if w.get("expect") and w["expect"] not in sigs:
+            ctx.note("corpus witness %s no longer shows %s on the implementation" % (r["origin"], w["expect"]))
+        ctx.hist("corpus", "reproduced" if (w.get("expect") in sigs) else ("clean" if not sigs else "other"))
+    # 2. generated
+    n = ctx.n(220, 6000)
+    profiles = list(PROFILES)
+    for i in range(n):
+        prof = profiles[i % len(profiles)]
+        r = gen_and_run(ctx.rng, prof, ctx.rng.choice([10, 20, 30, 45]))
+        r["origin"] = prof
+        results.append(r)
+    for r in results:
+        ctx.case(r["actions"], nontrivial=nontrivial_flag in r["flags"])
+        ctx.hist("profile", r["origin"])
+        ctx.hist("history_length", (len(r["actions"]) // 10) * 10)
+        for a in r["actions"]:
+            ctx.hist("action", a[0] + ("-discarded" if a[0] == "send" and a[2] else "") + ("-noturn" if a[0] == "drop" and not a[2] else ""))
+        for f in r["flags"]:
+            ctx.hist("feature", f)
+        for s in set(p[0] for p in r["problems"]):
+            ctx.hist("oracle_outcome", s)
+        if not r["problems"]:
+            ctx.hist("oracle_outcome", "held")
+    for r in results[:2] + results[-2:]:
+        ctx.sample(dict(origin=r["origin"], actions=r["actions"], model_ops=[[list(o) for o in g] for g in r["groups"]][:12],
+                        final=r["snaps"][-1] if r["snaps"] else None))
+    ctx.extra["impl_histories_s"] = round(time.time() - t0, 1)
+    # 3. direct oracle
+    seen = set()
+    for r in results:
+        for sig, text in r["problems"]:
+            if SIG_PROPERTY.get(sig) != pid or sig in seen:
+                continue
+            seen.add(sig)
+            acts = shrink_actions(r["actions"], sig)
+            ctx.fail(sig, "%s; history (%d actions, shrunk from %d, origin %s): %s" % (text, len(acts), len(r["actions"]), r["origin"],
+                                                                                     json.dumps(acts)),
+                     replay=dict(actions=acts, original=r["actions"], origin=r["origin"]))
+    return results
+
+
+def correspond(ctx, pid, results):
+    from harness import common
+    import json
+    try:
+        mv = model_eval(ctx, pid + "_cases", results)
+    except common.CoqEvalError as e:
+        ctx.fail("correspondence-broken", "the model could not be evaluated: " + str(e)[-1500:], has_input=False)
+        return
+    nbad = 0
+    for r, m in zip(results, mv):
+        ctx.traces += 1
+        c = compare(r, m)
+        if c:
+            nbad += 1
+            if nbad <= 1:
+                k = c[0]
+                ctx.fail("correspondence/refs-trace", "model and implementation disagree: %s; history prefix: %s"
+                         % (c[1], json.dumps(r["actions"][:k + 1])),
+                         replay=dict(actions=r["actions"][:k + 1], groups=r["groups"][:k + 1], detail=c[1]), has_input=False)
+    ctx.extra["correspondence_histories"] = len(results)
+    ctx.extra["correspondence_steps"] = sum(len(r["actions"]) for r in results)
+    ctx.extra["correspondence_disagreements"] = nbad
